@@ -1,4 +1,5 @@
 import GopatchModel.Intervals
+import GopatchModel.Spec.AstDiffSame
 namespace Gopatch.C17
 open Gopatch
 
@@ -138,5 +139,53 @@ elided run) and one covered only by a NoPos interval are kept -/
 example : filterComments [⟨10, 20⟩, ⟨30, 40⟩, ⟨0, 9⟩]
     [⟨1, 8, "//go:build x"⟩, ⟨12, 18, "/* in rewritten */"⟩, ⟨22, 28, "/* in elided */"⟩, ⟨50, 60, "// elsewhere"⟩]
     = [⟨1, 8, "//go:build x"⟩, ⟨22, 28, "/* in elided */"⟩, ⟨50, 60, "// elsewhere"⟩] := by decide
+
+/-! ### where the changed regions come from: the model of internal/astdiff (AstDiff.lean) -/
+
+/-- **astdiff invents no position.** Every region `Snapshot.Diff` reports to the changelog is made of the
+end points of the old snapshot's own extent and of positions stored in the old snapshot (the Pos/End of a
+node, a valid token.Pos field, the Pos/End of a comment the comment map associates with a node) — whatever the
+new tree is. `P` is any predicate on positions that the old snapshot satisfies throughout. -/
+theorem reported_regions_are_made_of_old_positions (P : Nat → Prop) (old new : AD.AV)
+    (hroot : P old.pos ∧ P old.stop) (hold : AD.AllPos (AD.flowOf P) old) :
+    ∀ r ∈ (AD.diff old new).ch, P r.pos ∧ P r.stop :=
+  AD.walk_P (AD.flowOf P) old _ new hroot hold
+
+/-- **Untouched neighbours are left alone.** In a list of nodes (the declarations of a file, the statements
+of a block) regions are reported only for the elements the edit script does not pair as identical, and each
+is made of positions of that element and of the region allotted to it; when these lie on one side of a
+stretch `[lo, hi)` — the extent of a declaration paired as identical — no reported region reaches into that
+stretch, whatever the new list is. (`AD.Sep` speaks about the old snapshot and the edit script only; the driver
+evaluates its decidable form `AD.sepB` on the declarations of every real snapshot.) -/
+theorem untouched_neighbours_left_alone (lo hi : Nat) (kids : List AD.AV) (regs : List AD.Rg) (fts : List AD.Fate)
+    (new : List AD.AV) (hsep : AD.sepB lo hi kids regs fts = true) :
+    ∀ r ∈ (AD.walkFates regs fts kids new).1, r.stop ≤ lo ∨ r.pos = 0 ∨ hi ≤ r.pos :=
+  AD.walkFates_clear lo hi kids regs fts new (AD.sepB_sound lo hi kids regs fts hsep)
+
+/-- **Unchanged syntax reports nothing**: when the new tree agrees with the old snapshot up to positions and
+comments (`AD.Same`), `Snapshot.Diff` reports no region at all — for trees of every size, through
+`diff.Difference`, `alignSlices` and `compareNodes` as they are. -/
+theorem unchanged_syntax_reports_nothing (old new : AD.AV) (h : AD.Same old new) : (AD.diff old new).ch = [] :=
+  AD.walk_same old _ new h
+
+/-- and `compareNodes` finds such trees equal, so an untouched element of a list can be paired as identical -/
+theorem unchanged_syntax_compares_equal (old new : AD.AV) (h : AD.Same old new) : (AD.cmp old new).equal = true := by
+  simp [AD.Res.equal, AD.cmp_same old new h]
+
+/-- a region that keeps clear of a stretch in this sense is `clearOf` it: the link to `respects` above -/
+theorem clear_region_respects (lo hi : Nat) (r : AD.Rg) (h : r.stop ≤ lo ∨ r.pos = 0 ∨ hi ≤ r.pos) :
+    clearOf ⟨r.pos, r.stop⟩ ⟨lo, hi⟩ = true := by
+  unfold clearOf
+  simp only [Bool.or_eq_true, beq_iff_eq, decide_eq_true_eq]
+  rcases h with h | h | h
+  · exact Or.inl (Or.inr h)
+  · exact Or.inl (Or.inl h)
+  · exact Or.inr h
+
+/-- non-vacuity: two declarations, the first paired as identical, the second deleted; the second and its
+region `[20, 40)` lie right of the first one's extent `[10, 20)` -/
+example : AD.sepB 10 20
+    [.mk "*ast.GenDecl" 0 true 10 20 [] false "" false [], .mk "*ast.FuncDecl" 0 true 22 40 [] false "" false []]
+    [⟨5, 22⟩, ⟨20, 40⟩] [.same 0, .deleted] = true := by decide
 
 end Gopatch.C17
